@@ -433,6 +433,8 @@ fn random_base<B: Elem>(rng: &mut Rng) -> B {
     B::from_coords(&c)
 }
 
+pub fn random_base_pub<B: Elem>(rng: &mut Rng) -> B { random_base::<B>(rng) }
+
 pub fn record<D: CurveDrv>(cfg: &str, seed: u64, n: usize, profile: &str, out: &mut dyn std::io::Write) -> Report {
     use ark_ec::CurveConfig;
     let mut rep = Report::default();
